@@ -329,27 +329,34 @@ func (f *fidRef) markChildDeleted(name string) {
 //
 // Precondition: this must be called via safelyGlobal.
 func notifyNameChange(pn *pathNode) {
-	// Call on all local references.
-	//
-	// Hold a reference during the callback, as removeWithName does: another
+	// Hold a reference during each callback, as removeWithName does: another
 	// connection may be dropping its last reference right now, and no method
 	// may be called on a File once its Close has begun. The references are
-	// dropped after forEachChildRef has released childMu, since dropping the
-	// last one comes back to this node via removeChild.
+	// dropped only when the whole traversal is over: dropping a last one
+	// comes back to path nodes via removeChild - to this node and, when the
+	// parent fid goes with it, to the node above, whose childMu the traversal
+	// still holds while it descends.
 	var held []*fidRef
-	pn.forEachChildRef(func(ref *fidRef, name string) {
-		if ref.TryIncRef() {
-			held = append(held, ref)
-			ref.file.Renamed(ref.parent.file, name)
-		}
-	})
+	notifyNameChangeHolding(pn, &held)
 	for _, ref := range held {
 		ref.DecRef()
 	}
+}
+
+// notifyNameChangeHolding is the recursion step of notifyNameChange; the
+// references it takes are appended to held.
+func notifyNameChangeHolding(pn *pathNode, held *[]*fidRef) {
+	// Call on all local references.
+	pn.forEachChildRef(func(ref *fidRef, name string) {
+		if ref.TryIncRef() {
+			*held = append(*held, ref)
+			ref.file.Renamed(ref.parent.file, name)
+		}
+	})
 
 	// Call on all subtrees.
 	pn.forEachChildNode(func(pn *pathNode) {
-		notifyNameChange(pn)
+		notifyNameChangeHolding(pn, held)
 	})
 }
 
